@@ -2,6 +2,7 @@
 mutating histories, for pre-set status bytes, with clean unmount, drop, and abandonment + remount."""
 import vlib, sessions
 from props import sess_common as sc
+from props import csess_corr
 
 PROP_FILES = ["Props/C12.v"]
 
@@ -131,3 +132,7 @@ def run(rep, tier, seed):
                        "sector that changes bytes other than time-stamp fields of directory slots (classified by Spec/Regions.v); status byte read "
                        "from the raw image at every call boundary; ends: unmount, drop, or abandonment (forget) followed by remount + status_flags")
     rep.sample({"status_byte_at_mount": metas[0][0], "end": metas[0][1], "ops": [sc.short(l, 80) for l in scripts[0][5:14]]})
+    # the dirty bit INSIDE the image model (Model/VolStatus.v; C12_vol_create, C12_vol_file_step, C12_vol_remove_file,
+    # C12_vol_unmount_restores): create ; calls ; flush / drop ; remove sessions mounted with status byte 0 / 1 / 2 / 3 / 4 / 0x84 /
+    # 0xFC / 0xFF - the WHOLE device, status byte included and unmasked, against the extracted mounted operations after every call
+    csess_corr.stream(rep, tier, vlib.Rng(seed * 6151 + 12), "C12", n=12 if tier == "quick" else 200)
